@@ -645,6 +645,48 @@ def rule_squash_derived_sign(ctx, m):
         raise AnalysisError('unrecognised shape: squash derives no slope from cover_quantile')
 
 
+def rule_squash_sign_epilogue(ctx, m):
+    """squash(keep_sign=True): the value is computed on |X|, then shifted so that zero maps to zero and given back its sign -- result = Xs * (f(|X|) - Xz).
+    Decided on the polynomial normal form of the returned expression over (f, Xs, Xz): Xs*f - Xs*Xz (an epilogue that computes Xs*f - Xz leaves -Xz at the
+    zeros of the input, outside [0, 1])."""
+    from ..symexec import Exec, Env
+    from ..canon import poly_norm
+    pm = m.py('dtaidistance.similarity')
+    f = pm.funcs.get('squash')
+    if f is None:
+        raise AnalysisError('anchor vanished: similarity.squash')
+    tail = None
+    for k_ in range(len(f.body) - 1, -1, -1):
+        st = f.body[k_]
+        if st.k == 'if' and any(x == ('var', 'keep_sign') for x in walk_expr(st.cond)) and \
+                any(t.k == 'assign' and t.target == ('var', 'result') for t in walk_stmts([st])):
+            tail = f.body[k_:]
+            break
+    if tail is None:
+        ctx.undecided('R-MON', 'squash keep_sign epilogue', 'no `if keep_sign: result = ..` at the end of squash')
+        return
+    ex = Exec()
+    ex.run(tail, Env({'keep_sign': ('bool', True), 'result': ('var', 'F'), 'Xs': ('var', 'XS'), 'Xz': ('var', 'XZ')}))
+    vals = []
+    for path, val, st in ex.returns:
+        if val is None:
+            continue
+        v = val[1][0] if val[0] == 'tuple' and val[1] else val
+        vals.append((v, st))
+    want = poly_norm(('bin', '*', ('var', 'XS'), ('bin', '-', ('var', 'F'), ('var', 'XZ'))))
+    if not vals:
+        ctx.undecided('R-MON', 'squash keep_sign epilogue', 'no return after the epilogue')
+        return
+    for v, st in vals:
+        try:
+            got = poly_norm(v)
+        except Exception:  # noqa
+            got = None
+        ctx.check(got == want, 'R-MON', pm.path, 'squash', 'keep_sign epilogue',
+                  'with keep_sign the returned value must be Xs * (f(|X|) - Xz); the code returns %s: at the zeros of the input (Xs = 0) that is %s instead of 0'
+                  % (fmt(v)[:120], '-Xz' if got is not None else '?'), st.line)
+
+
 def rule_default_scale(ctx, m):
     """The range / monotonicity verdicts of rule_similarity assume a data-derived default scale r with r >= max(D) (reverse) resp. r > 0
     (exponential, gaussian).  Here the default expressions themselves are checked, as linear terms over MIN = min(D) >= 0 and MAX = max(D) >= MIN."""
